@@ -76,8 +76,8 @@ CFG = dict(
         }),
     # quick: 4 x 1300 histories x 40 ops (~1 s per shard)
     #        + 4 x 30 allocator-shape histories (200-400 prefixes, 60 ops ~ 1000 Table calls each, ~5 s per debug shard)
-    quick=[e1("hist", "c06", "debug", 2, 40, part="hist"), e1("hist", "c06", "release", 2, 40, salt=1, part="hist"),
-           e1("alloc", "c06", "debug", 2, 40, salt=3, part="alloc"), e1("alloc", "c06", "release", 2, 40, salt=4, part="alloc")],
+    quick=[e1("hist", "c06", "debug", 2, 120, part="hist"), e1("hist", "c06", "release", 2, 120, salt=1, part="hist"),
+           e1("alloc", "c06", "debug", 2, 120, salt=3, part="alloc"), e1("alloc", "c06", "release", 2, 120, salt=4, part="alloc")],
     # thorough: 16 x 20000 histories x 80 ops; Miri: as many 25-op histories as fit the budget (~1 s per Table call)
     #           + 8 x 300 allocator-shape histories (or what fits 150 s)
     thorough=[e1("hist", "c06", "debug", 8, 200, part="hist"), e1("hist", "c06", "release", 8, 200, salt=1, part="hist"),
